@@ -1,0 +1,104 @@
+//! Hooks for the cluster synchronisation checks (C15): capture of the requests a node hands to
+//! its `ClusteSyncSender`s (instead of sending them over the network), set-up and dump of a
+//! `NamingActor` that runs without the bean factory.
+use crate::naming::cluster::instance_delay_notify::ClusterInstanceDelayNotifyActor;
+use crate::naming::cluster::model::NamingRouteRequest;
+use crate::naming::cluster::node_manage::InnerNodeManage;
+use crate::naming::core::NamingActor;
+use crate::naming::model::{Instance, InstanceKey};
+use actix::prelude::*;
+use std::sync::{Arc, Mutex};
+
+pub struct Captured {
+    pub from: u64,
+    pub target: u64,
+    pub req: NamingRouteRequest,
+}
+
+static CAPTURE: Mutex<Option<Vec<Captured>>> = Mutex::new(None);
+
+/// from now on `ClusteSyncSender` records its requests instead of sending them
+pub fn capture_start() {
+    *CAPTURE.lock().unwrap() = Some(vec![]);
+}
+
+pub fn capture_stop() {
+    *CAPTURE.lock().unwrap() = None;
+}
+
+/// the requests recorded since the last call, in the order they were handed over
+pub fn capture_take() -> Vec<Captured> {
+    match CAPTURE.lock().unwrap().as_mut() {
+        Some(v) => std::mem::take(v),
+        None => vec![],
+    }
+}
+
+/// called by `ClusteSyncSender`; true when the request was recorded (capture is on)
+pub fn capture(from: u64, target: u64, req: &NamingRouteRequest) -> bool {
+    match CAPTURE.lock().unwrap().as_mut() {
+        Some(v) => {
+            v.push(Captured {
+                from,
+                target,
+                req: req.clone(),
+            });
+            true
+        }
+        None => false,
+    }
+}
+
+/// what the bean factory would inject into the naming actor
+#[derive(Message)]
+#[rtype(result = "anyhow::Result<VerifNamingDump>")]
+pub enum VerifNamingCmd {
+    Setup {
+        node_id: u64,
+        delay_notify: Option<Addr<ClusterInstanceDelayNotifyActor>>,
+        node_manage: Option<Addr<InnerNodeManage>>,
+    },
+    Dump,
+}
+
+#[derive(Default)]
+pub struct VerifNamingDump {
+    pub instances: Vec<Arc<Instance>>,
+    pub client_instance_set: Vec<(Arc<String>, Vec<InstanceKey>)>,
+}
+
+impl Handler<VerifNamingCmd> for NamingActor {
+    type Result = anyhow::Result<VerifNamingDump>;
+
+    fn handle(&mut self, msg: VerifNamingCmd, _ctx: &mut Context<Self>) -> Self::Result {
+        match msg {
+            VerifNamingCmd::Setup {
+                node_id,
+                delay_notify,
+                node_manage,
+            } => {
+                self.node_id = node_id;
+                self.cluster_delay_notify = delay_notify;
+                self.cluster_node_manage = node_manage;
+                Ok(VerifNamingDump::default())
+            }
+            VerifNamingCmd::Dump => {
+                let mut instances = vec![];
+                for service in self.service_map.values() {
+                    for instance in service.instances.values() {
+                        instances.push(instance.clone());
+                    }
+                }
+                let client_instance_set = self
+                    .client_instance_set
+                    .iter()
+                    .map(|(k, v)| (k.clone(), v.iter().cloned().collect()))
+                    .collect();
+                Ok(VerifNamingDump {
+                    instances,
+                    client_instance_set,
+                })
+            }
+        }
+    }
+}
